@@ -1,12 +1,655 @@
-//! Extension module (Tier A): owner fills in. Output: coq/gen/UFConcFacts.v
-//! Contract: return (text of the .v file, report lines). Each report line is one JSON object
-//! {"item":"UFConcFacts.<name>","file":"<rust file>","ok":true|false[,"error":"..."]}.
-//! Fail closed: when a site is not recognised, OMIT the Gallina definition (so dependent proofs stop
-//! compiling) and push an ok:false report line.
+//! Extension module (Tier A), owner x-ufconc. Output: coq/gen/UFConcFacts.v
+//!
+//! Section 1 (C17, concurrent half): the *atomic programs* of `find_impl`, `find`, `merge`,
+//! `same_set` of union-find/src/concurrent/uf.rs as control-flow graphs over the instruction type of
+//! coq/UF/AtomProg.v (one node per Rust statement: local assignment, atomic load, compare-exchange,
+//! call of find_impl, two-way branch, jump, return), plus the memory orderings that
+//! union-find/src/concurrent/atomic_int.rs gives to load / store / compare_exchange.
+//! Section 2 (C06): cut-off constants and `should_parallelize` of
+//! core-relations/src/parallel_heuristics.rs and the queue-then-flush structure of
+//! `parallel_insert` (core-relations/src/table/mod.rs).
+//!
+//! Contract: return (text of the .v file, report lines). Fail closed: when a site is not recognised,
+//! OMIT the Gallina definition (so dependent proofs stop compiling) and push an ok:false line.
 
-pub fn generate(_repo: &std::path::Path) -> (String, Vec<String>) {
-    (
-        "(* GENERATED by /verif/translator (x_ufconc.rs): nothing extracted yet *)\n".to_string(),
-        Vec::new(),
-    )
+use quote::ToTokens;
+use std::path::Path;
+use syn::visit::Visit;
+
+// ------------------------------------------------------------------------------------------------
+// CFG construction
+// ------------------------------------------------------------------------------------------------
+
+#[derive(Clone, Debug)]
+enum Ex {
+    Var(String),
+    Min(Box<Ex>, Box<Ex>),
+    Max(Box<Ex>, Box<Ex>),
+    Bool(bool),
+}
+
+impl Ex {
+    fn coq(&self) -> String {
+        match self {
+            Ex::Var(v) => format!("EVar \"{v}\""),
+            Ex::Min(a, b) => format!("EMin ({}) ({})", a.coq(), b.coq()),
+            Ex::Max(a, b) => format!("EMax ({}) ({})", a.coq(), b.coq()),
+            Ex::Bool(b) => format!("EBool {b}"),
+        }
+    }
+}
+
+#[derive(Clone, Debug)]
+enum In {
+    Set(String, Ex, usize),
+    Load(String, Ex, usize),
+    Cas(Ex, Ex, Ex, usize, usize),
+    Call(String, String, Vec<Ex>, usize),
+    Br(bool /* true: ==, false: != */, Ex, Ex, usize, usize),
+    Jmp(usize),
+    Ret(Vec<Ex>),
+}
+
+const DEAD: usize = usize::MAX;
+
+struct Cfg {
+    nodes: Vec<Option<In>>,
+}
+
+fn toks<T: ToTokens>(t: &T) -> String {
+    t.to_token_stream().to_string().split_whitespace().collect::<Vec<_>>().join("")
+}
+
+fn path_str(p: &syn::Path) -> String {
+    p.segments.iter().map(|s| s.ident.to_string()).collect::<Vec<_>>().join("::")
+}
+
+/// `#[cfg(egglog_verif)] egglog_concurrency::verif_hooks::perturb(N);` : a no-op unless a
+/// perturbation seed is set (hook H5); skipped.
+fn is_perturb_hook(attrs: &[syn::Attribute], e: &syn::Expr) -> bool {
+    if attrs.len() != 1 || toks(&attrs[0]) != "#[cfg(egglog_verif)]" {
+        return false;
+    }
+    if let syn::Expr::Call(c) = e {
+        if let syn::Expr::Path(p) = &*c.func {
+            return path_str(&p.path) == "egglog_concurrency::verif_hooks::perturb";
+        }
+    }
+    false
+}
+
+fn expr_attrs(e: &syn::Expr) -> &[syn::Attribute] {
+    match e {
+        syn::Expr::Call(c) => &c.attrs,
+        syn::Expr::MethodCall(c) => &c.attrs,
+        syn::Expr::Path(c) => &c.attrs,
+        syn::Expr::If(c) => &c.attrs,
+        syn::Expr::While(c) => &c.attrs,
+        syn::Expr::Loop(c) => &c.attrs,
+        syn::Expr::Match(c) => &c.attrs,
+        syn::Expr::Assign(c) => &c.attrs,
+        syn::Expr::Return(c) => &c.attrs,
+        syn::Expr::Continue(c) => &c.attrs,
+        _ => &[],
+    }
+}
+
+struct Ctx {
+    /// `macro_rules! load` was seen with the expected body
+    load_macro: bool,
+}
+
+impl Ctx {
+    /// pure expression over locals: `x`, `T::as_usize(e)`, `cmp::min(a,b)`, `cmp::max(a,b)`, `true`/`false`
+    fn pure(&self, e: &syn::Expr) -> Result<Ex, String> {
+        match e {
+            syn::Expr::Path(p) if p.path.segments.len() == 1 => Ok(Ex::Var(p.path.segments[0].ident.to_string())),
+            syn::Expr::Paren(p) => self.pure(&p.expr),
+            syn::Expr::Lit(l) => match &l.lit {
+                syn::Lit::Bool(b) => Ok(Ex::Bool(b.value)),
+                _ => Err(format!("unsupported literal `{}`", toks(e))),
+            },
+            syn::Expr::Call(c) => {
+                let f = match &*c.func {
+                    syn::Expr::Path(p) => path_str(&p.path),
+                    _ => return Err(format!("unsupported call `{}`", toks(e))),
+                };
+                let args: Vec<&syn::Expr> = c.args.iter().collect();
+                match (f.as_str(), args.len()) {
+                    ("T::as_usize", 1) => self.pure(args[0]),
+                    ("cmp::min", 2) => Ok(Ex::Min(Box::new(self.pure(args[0])?), Box::new(self.pure(args[1])?))),
+                    ("cmp::max", 2) => Ok(Ex::Max(Box::new(self.pure(args[0])?), Box::new(self.pure(args[1])?))),
+                    _ => Err(format!("unsupported pure call `{}`", toks(e))),
+                }
+            }
+            _ => Err(format!("unsupported pure expression `{}`", toks(e))),
+        }
+    }
+
+    /// `buf[T::as_usize(a)]` -> a
+    fn cell(&self, e: &syn::Expr) -> Result<Ex, String> {
+        if let syn::Expr::Index(ix) = e {
+            if toks(&ix.expr) == "buf" {
+                return self.pure(&ix.index);
+            }
+        }
+        Err(format!("not a cell of the parent array: `{}`", toks(e)))
+    }
+
+    /// atomic load: `buf[..].load()` or `load!(x)`
+    fn as_load(&self, e: &syn::Expr) -> Option<Result<Ex, String>> {
+        match e {
+            syn::Expr::MethodCall(m) if m.method == "load" && m.args.is_empty() => Some(self.cell(&m.receiver)),
+            syn::Expr::Macro(m) if path_str(&m.mac.path) == "load" => {
+                if !self.load_macro {
+                    return Some(Err("load! used but macro_rules! load not recognised".into()));
+                }
+                Some(syn::parse2::<syn::Expr>(m.mac.tokens.clone()).map_err(|e| e.to_string()).and_then(|a| self.pure(&a)))
+            }
+            _ => None,
+        }
+    }
+
+    /// compare-exchange: `buf[..].cas(expected, new)`
+    fn as_cas(&self, e: &syn::Expr) -> Option<Result<(Ex, Ex, Ex), String>> {
+        match e {
+            syn::Expr::MethodCall(m) if m.method == "cas" && m.args.len() == 2 => Some((|| {
+                Ok((self.cell(&m.receiver)?, self.pure(&m.args[0])?, self.pure(&m.args[1])?))
+            })()),
+            _ => None,
+        }
+    }
+
+    /// `Self::find_impl(buf, x)`
+    fn as_call(&self, e: &syn::Expr) -> Option<Result<(String, Vec<Ex>), String>> {
+        if let syn::Expr::Call(c) = e {
+            if let syn::Expr::Path(p) = &*c.func {
+                let f = path_str(&p.path);
+                if let Some(name) = f.strip_prefix("Self::") {
+                    let args: Vec<&syn::Expr> = c.args.iter().collect();
+                    if args.is_empty() || toks(args[0]) != "buf" {
+                        return Some(Err(format!("call `{}`: first argument must be buf", toks(e))));
+                    }
+                    let mut out = vec![];
+                    for a in &args[1..] {
+                        match self.pure(a) {
+                            Ok(x) => out.push(x),
+                            Err(e) => return Some(Err(e)),
+                        }
+                    }
+                    return Some(Ok((name.to_string(), out)));
+                }
+            }
+        }
+        None
+    }
+
+    fn cond(&self, e: &syn::Expr) -> Result<(bool, Ex, Ex), String> {
+        if let syn::Expr::Binary(b) = e {
+            let eq = match b.op {
+                syn::BinOp::Eq(_) => true,
+                syn::BinOp::Ne(_) => false,
+                _ => return Err(format!("unsupported condition `{}`", toks(e))),
+            };
+            return Ok((eq, self.pure(&b.left)?, self.pure(&b.right)?));
+        }
+        Err(format!("unsupported condition `{}`", toks(e)))
+    }
+}
+
+impl Cfg {
+    fn add(&mut self, i: In) -> usize {
+        self.nodes.push(Some(i));
+        self.nodes.len() - 1
+    }
+    fn reserve(&mut self) -> usize {
+        self.nodes.push(None);
+        self.nodes.len() - 1
+    }
+
+    /// `dst = <rhs>` / `let [mut] dst = <rhs>` -> entry label
+    fn assign(&mut self, cx: &Ctx, dst: &str, rhs: &syn::Expr, next: usize) -> Result<usize, String> {
+        if let Some(r) = cx.as_load(rhs) {
+            return Ok(self.add(In::Load(dst.to_string(), r?, next)));
+        }
+        if let Some(r) = cx.as_cas(rhs) {
+            if dst != "_" {
+                return Err("result of cas bound to a variable: unsupported".into());
+            }
+            let (a, e, n) = r?;
+            return Ok(self.add(In::Cas(a, e, n, next, next)));
+        }
+        if let Some(r) = cx.as_call(rhs) {
+            let (f, args) = r?;
+            return Ok(self.add(In::Call(dst.to_string(), f, args, next)));
+        }
+        if dst == "_" {
+            return Err(format!("`let _ = {}`: unsupported", toks(rhs)));
+        }
+        Ok(self.add(In::Set(dst.to_string(), cx.pure(rhs)?, next)))
+    }
+
+    /// a value in return position -> entry label of `return e`
+    fn ret(&mut self, cx: &Ctx, e: Option<&syn::Expr>) -> Result<usize, String> {
+        match e {
+            None => Ok(self.add(In::Ret(vec![]))),
+            Some(syn::Expr::Tuple(t)) => {
+                let mut v = vec![];
+                for x in &t.elems {
+                    v.push(cx.pure(x)?);
+                }
+                Ok(self.add(In::Ret(v)))
+            }
+            Some(e) => {
+                if let Some(r) = cx.as_call(e) {
+                    let (f, args) = r?;
+                    let r = self.add(In::Ret(vec![Ex::Var("_ret".into())]));
+                    return Ok(self.add(In::Call("_ret".into(), f, args, r)));
+                }
+                if cx.as_load(e).is_some() || cx.as_cas(e).is_some() {
+                    return Err(format!("atomic operation in return position: `{}`", toks(e)));
+                }
+                let v = cx.pure(e)?;
+                Ok(self.add(In::Ret(vec![v])))
+            }
+        }
+    }
+
+    /// statement-like expression (control flow or effect); `next`: where control goes afterwards
+    fn stmt_expr(&mut self, cx: &Ctx, e: &syn::Expr, next: usize, lh: Option<usize>) -> Result<usize, String> {
+        match e {
+            syn::Expr::Assign(a) => {
+                let dst = match &*a.left {
+                    syn::Expr::Path(p) if p.path.segments.len() == 1 => p.path.segments[0].ident.to_string(),
+                    _ => return Err(format!("unsupported assignment target `{}`", toks(&a.left))),
+                };
+                self.assign(cx, &dst, &a.right, next)
+            }
+            syn::Expr::While(w) => {
+                if w.label.is_some() {
+                    return Err("labelled loop".into());
+                }
+                let (eq, a, b) = cx.cond(&w.cond)?;
+                let h = self.reserve();
+                let body = self.block(cx, &w.body.stmts, h, Some(h), false)?;
+                self.nodes[h] = Some(In::Br(eq, a, b, body, next));
+                Ok(h)
+            }
+            syn::Expr::Loop(l) => {
+                if l.label.is_some() {
+                    return Err("labelled loop".into());
+                }
+                let h = self.reserve();
+                let body = self.block(cx, &l.body.stmts, h, Some(h), false)?;
+                self.nodes[h] = Some(In::Jmp(body));
+                Ok(h)
+            }
+            syn::Expr::If(i) => {
+                let (eq, a, b) = cx.cond(&i.cond)?;
+                let yes = self.block(cx, &i.then_branch.stmts, next, lh, false)?;
+                let no = match &i.else_branch {
+                    None => next,
+                    Some((_, e)) => match &**e {
+                        syn::Expr::Block(b) => self.block(cx, &b.block.stmts, next, lh, false)?,
+                        other => self.stmt_expr(cx, other, next, lh)?,
+                    },
+                };
+                Ok(self.add(In::Br(eq, a, b, yes, no)))
+            }
+            syn::Expr::Match(m) => {
+                let (a, ex, n) = match cx.as_cas(&m.expr) {
+                    Some(r) => r?,
+                    None => return Err(format!("match on something other than a cas: `{}`", toks(&m.expr))),
+                };
+                if m.arms.len() != 2 {
+                    return Err("match on cas: expected exactly the arms Ok(_) and Err(_)".into());
+                }
+                let mut ok = None;
+                let mut err = None;
+                for arm in &m.arms {
+                    if arm.guard.is_some() {
+                        return Err("match arm with guard".into());
+                    }
+                    let l = self.stmt_expr(cx, &arm.body, next, lh)?;
+                    match toks(&arm.pat).as_str() {
+                        "Ok(_)" => ok = Some(l),
+                        "Err(_)" => err = Some(l),
+                        p => return Err(format!("match on cas: unsupported pattern `{p}`")),
+                    }
+                }
+                match (ok, err) {
+                    (Some(o), Some(e)) => Ok(self.add(In::Cas(a, ex, n, o, e))),
+                    _ => Err("match on cas: expected exactly the arms Ok(_) and Err(_)".into()),
+                }
+            }
+            syn::Expr::Return(r) => self.ret(cx, r.expr.as_deref()),
+            syn::Expr::Continue(c) => {
+                if c.label.is_some() {
+                    return Err("labelled continue".into());
+                }
+                match lh {
+                    Some(h) => Ok(self.add(In::Jmp(h))),
+                    None => Err("continue outside of a loop".into()),
+                }
+            }
+            syn::Expr::Block(b) => self.block(cx, &b.block.stmts, next, lh, false),
+            other => Err(format!("unsupported statement `{}`", toks(other))),
+        }
+    }
+
+    /// statements, compiled back to front; `tail_returns`: a trailing value expression is the
+    /// function's result
+    fn block(&mut self, cx: &Ctx, stmts: &[syn::Stmt], next: usize, lh: Option<usize>, tail_returns: bool) -> Result<usize, String> {
+        let mut next = next;
+        let n = stmts.len();
+        for (k, s) in stmts.iter().enumerate().rev() {
+            match s {
+                syn::Stmt::Local(l) => {
+                    let dst = match &l.pat {
+                        syn::Pat::Ident(p) if p.by_ref.is_none() && p.subpat.is_none() => p.ident.to_string(),
+                        syn::Pat::Wild(_) => "_".to_string(),
+                        p => return Err(format!("unsupported let pattern `{}`", toks(p))),
+                    };
+                    let init = l.init.as_ref().ok_or("let without initialiser")?;
+                    if init.diverge.is_some() {
+                        return Err("let-else".into());
+                    }
+                    next = self.assign(cx, &dst, &init.expr, next)?;
+                }
+                syn::Stmt::Expr(e, semi) => {
+                    if is_perturb_hook(expr_attrs(e), e) {
+                        continue;
+                    }
+                    if !expr_attrs(e).is_empty() {
+                        return Err(format!("attribute on statement `{}`", toks(e)));
+                    }
+                    let is_control = matches!(
+                        e,
+                        syn::Expr::While(_)
+                            | syn::Expr::Loop(_)
+                            | syn::Expr::If(_)
+                            | syn::Expr::Match(_)
+                            | syn::Expr::Return(_)
+                            | syn::Expr::Continue(_)
+                            | syn::Expr::Assign(_)
+                            | syn::Expr::Block(_)
+                    );
+                    if semi.is_none() && k == n - 1 && !is_control {
+                        if !tail_returns {
+                            return Err(format!("value expression `{}` in statement position", toks(e)));
+                        }
+                        next = self.ret(cx, Some(e))?;
+                    } else {
+                        next = self.stmt_expr(cx, e, next, lh)?;
+                    }
+                }
+                syn::Stmt::Macro(m) => {
+                    return Err(format!("macro statement `{}`", toks(&m.mac.path)));
+                }
+                syn::Stmt::Item(it) => {
+                    // only the `load!` helper macro is allowed; checked by the caller
+                    if let syn::Item::Macro(mm) = it {
+                        if mm.ident.as_ref().map(|i| i == "load").unwrap_or(false) {
+                            continue;
+                        }
+                    }
+                    return Err(format!("nested item `{}`", toks(it).chars().take(40).collect::<String>()));
+                }
+            }
+        }
+        Ok(next)
+    }
+
+    /// renumber reachable nodes in depth-first preorder from `entry` (entry becomes 0)
+    fn finish(&self, entry: usize) -> Result<Vec<In>, String> {
+        let mut order: Vec<usize> = vec![];
+        let mut map = vec![usize::MAX; self.nodes.len()];
+        let mut stack = vec![entry];
+        while let Some(n) = stack.pop() {
+            if n == DEAD {
+                continue;
+            }
+            if map[n] != usize::MAX {
+                continue;
+            }
+            map[n] = order.len();
+            order.push(n);
+            let succ: Vec<usize> = match self.nodes[n].as_ref().ok_or("unfilled node")? {
+                In::Set(_, _, a) | In::Load(_, _, a) | In::Call(_, _, _, a) | In::Jmp(a) => vec![*a],
+                In::Cas(_, _, _, a, b) | In::Br(_, _, _, a, b) => vec![*a, *b],
+                In::Ret(_) => vec![],
+            };
+            for s in succ.into_iter().rev() {
+                stack.push(s);
+            }
+        }
+        let m = |x: usize| if x == DEAD { 9999 } else { map[x] };
+        Ok(order
+            .iter()
+            .map(|&n| match self.nodes[n].clone().unwrap() {
+                In::Set(d, e, a) => In::Set(d, e, m(a)),
+                In::Load(d, e, a) => In::Load(d, e, m(a)),
+                In::Call(d, f, args, a) => In::Call(d, f, args, m(a)),
+                In::Jmp(a) => In::Jmp(m(a)),
+                In::Cas(a, e, n2, o, r) => In::Cas(a, e, n2, m(o), m(r)),
+                In::Br(q, a, b, y, no) => In::Br(q, a, b, m(y), m(no)),
+                In::Ret(v) => In::Ret(v),
+            })
+            .collect())
+    }
+}
+
+fn coq_instr(i: &In) -> String {
+    match i {
+        In::Set(d, e, a) => format!("ISet \"{d}\" ({}) {a}", e.coq()),
+        In::Load(d, e, a) => format!("ILoad \"{d}\" ({}) {a}", e.coq()),
+        In::Call(d, f, args, a) => format!(
+            "ICall \"{d}\" \"{f}\" [{}] {a}",
+            args.iter().map(|x| x.coq()).collect::<Vec<_>>().join("; ")
+        ),
+        In::Jmp(a) => format!("IJmp {a}"),
+        In::Cas(a, e, n, o, r) => format!("ICas ({}) ({}) ({}) {o} {r}", a.coq(), e.coq(), n.coq()),
+        In::Br(q, a, b, y, n) => format!("IBr {} ({}) ({}) {y} {n}", if *q { "CmpEq" } else { "CmpNe" }, a.coq(), b.coq()),
+        In::Ret(v) => format!("IRet [{}]", v.iter().map(|x| x.coq()).collect::<Vec<_>>().join("; ")),
+    }
+}
+
+fn find_impl_fn<'a>(file: &'a syn::File, name: &str) -> Option<&'a syn::ImplItemFn> {
+    for it in &file.items {
+        if let syn::Item::Impl(im) = it {
+            for ii in &im.items {
+                if let syn::ImplItem::Fn(f) = ii {
+                    if f.sig.ident == name {
+                        return Some(f);
+                    }
+                }
+            }
+        }
+    }
+    None
+}
+
+fn params_of(f: &syn::ImplItemFn) -> Result<Vec<String>, String> {
+    let mut out = vec![];
+    for a in &f.sig.inputs {
+        match a {
+            syn::FnArg::Receiver(_) => {}
+            syn::FnArg::Typed(t) => match &*t.pat {
+                syn::Pat::Ident(p) => {
+                    let n = p.ident.to_string();
+                    if n != "buf" {
+                        out.push(n)
+                    }
+                }
+                p => return Err(format!("unsupported parameter pattern `{}`", toks(p))),
+            },
+        }
+    }
+    Ok(out)
+}
+
+/// one function of uf.rs -> (params, need-expression (capacity = need + 1), code)
+fn uf_function(file: &syn::File, name: &str, wrapped: bool) -> Result<(Vec<String>, Option<Ex>, Vec<In>), String> {
+    let f = find_impl_fn(file, name).ok_or(format!("fn {name} not found"))?;
+    let params = params_of(f)?;
+    let mut cx = Ctx { load_macro: false };
+    let mut cfg = Cfg { nodes: vec![] };
+    if !wrapped {
+        // plain body (find_impl): the optional helper macro must be exactly the parent-array load
+        for s in &f.block.stmts {
+            if let syn::Stmt::Item(syn::Item::Macro(mm)) = s {
+                let t = toks(mm);
+                if t == "macro_rules!load{($x:expr)=>{buf[T::as_usize($x)].load()};}" {
+                    cx.load_macro = true;
+                } else {
+                    return Err(format!("unexpected macro definition `{t}`"));
+                }
+            }
+        }
+        let entry = cfg.block(&cx, &f.block.stmts, DEAD, None, true)?;
+        return Ok((params, None, cfg.finish(entry)?));
+    }
+    // wrapped: [let ..;]* self.data.with_access(<need> + 1, |buf| <body>, T::from_usize)
+    let n = f.block.stmts.len();
+    if n == 0 {
+        return Err("empty body".into());
+    }
+    let last = match &f.block.stmts[n - 1] {
+        syn::Stmt::Expr(e, None) => e,
+        _ => return Err("body does not end in self.data.with_access(..)".into()),
+    };
+    let mc = match last {
+        syn::Expr::MethodCall(m) if m.method == "with_access" && toks(&m.receiver) == "self.data" && m.args.len() == 3 => m,
+        _ => return Err("body does not end in self.data.with_access(len, |buf| .., T::from_usize)".into()),
+    };
+    if toks(&mc.args[2]) != "T::from_usize" {
+        return Err("with_access: initialiser is not T::from_usize".into());
+    }
+    let need = match &mc.args[0] {
+        syn::Expr::Binary(b) if matches!(b.op, syn::BinOp::Add(_)) && toks(&b.right) == "1" => cx.pure(&b.left)?,
+        e => return Err(format!("with_access: length `{}` is not `<e> + 1`", toks(e))),
+    };
+    let clo = match &mc.args[1] {
+        syn::Expr::Closure(c) => c,
+        _ => return Err("with_access: second argument is not a closure".into()),
+    };
+    if clo.inputs.len() != 1 || toks(&clo.inputs[0]) != "buf" {
+        return Err("with_access: closure parameter is not `buf`".into());
+    }
+    let body_entry = match &*clo.body {
+        syn::Expr::Block(b) => cfg.block(&cx, &b.block.stmts, DEAD, None, true)?,
+        e => cfg.ret(&cx, Some(e))?,
+    };
+    // the `let`s in front of with_access are local computations
+    let entry = cfg.block(&cx, &f.block.stmts[..n - 1], body_entry, None, false)?;
+    Ok((params, Some(need), cfg.finish(entry)?))
+}
+
+fn orderings(repo: &Path) -> Result<String, String> {
+    let rel = "union-find/src/concurrent/atomic_int.rs";
+    let src = std::fs::read_to_string(repo.join(rel)).map_err(|e| e.to_string())?;
+    let file = syn::parse_file(&src).map_err(|e| e.to_string())?;
+    let mut consts = std::collections::BTreeMap::new();
+    for it in &file.items {
+        if let syn::Item::Const(c) = it {
+            let v = toks(&c.expr);
+            let v = v.strip_prefix("Ordering::").ok_or(format!("const {} is not an Ordering::", c.ident))?.to_string();
+            if !["Relaxed", "Acquire", "Release", "AcqRel", "SeqCst"].contains(&v.as_str()) {
+                return Err(format!("unknown ordering {v}"));
+            }
+            consts.insert(c.ident.to_string(), v);
+        }
+    }
+    // every impl of AtomicInt must pass exactly these constants
+    let mut impls = 0;
+    for it in &file.items {
+        if let syn::Item::Impl(im) = it {
+            if im.trait_.as_ref().map(|t| path_str(&t.1) == "AtomicInt").unwrap_or(false) {
+                impls += 1;
+                for ii in &im.items {
+                    if let syn::ImplItem::Fn(f) = ii {
+                        let body = toks(&f.block);
+                        let want = match f.sig.ident.to_string().as_str() {
+                            "load" => Some("{self.load(LOAD_ORDERING)}"),
+                            "store" => Some("{self.store(value,STORE_ORDERING);}"),
+                            "cas" => Some("{self.compare_exchange(current,new,CAS_SUCCESS_ORDERING,CAS_FAILURE_ORDERING)}"),
+                            _ => None,
+                        };
+                        if let Some(w) = want {
+                            if body != w {
+                                return Err(format!("AtomicInt::{} for {}: body `{}` is not `{}`", f.sig.ident, toks(&im.self_ty), body, w));
+                            }
+                        }
+                    }
+                }
+            }
+        }
+    }
+    if impls == 0 {
+        return Err("no impl of AtomicInt found".into());
+    }
+    let get = |k: &str| consts.get(k).cloned().ok_or(format!("const {k} not found"));
+    Ok(format!(
+        "(* {rel}: {impls} impls of AtomicInt, all of load/store/cas pass these constants *)\nDefinition uf_load_ordering : ordering := {}.\nDefinition uf_store_ordering : ordering := {}.\nDefinition uf_cas_success_ordering : ordering := {}.\nDefinition uf_cas_failure_ordering : ordering := {}.\n",
+        get("LOAD_ORDERING")?,
+        get("STORE_ORDERING")?,
+        get("CAS_SUCCESS_ORDERING")?,
+        get("CAS_FAILURE_ORDERING")?
+    ))
+}
+
+fn uf_section(repo: &Path, out: &mut String, rep: &mut Vec<String>) {
+    let rel = "union-find/src/concurrent/uf.rs";
+    let mut push = |name: &str, file: &str, r: Result<String, String>, out: &mut String| match r {
+        Ok(t) => {
+            out.push_str(&t);
+            out.push('\n');
+            rep.push(format!("{{\"item\":\"UFConcFacts.{name}\",\"file\":\"{file}\",\"ok\":true}}"));
+        }
+        Err(e) => {
+            out.push_str(&format!("(* {name}: FAILED: {} *)\n\n", e.replace("*)", "* )")));
+            rep.push(format!("{{\"item\":\"UFConcFacts.{name}\",\"file\":\"{file}\",\"ok\":false,\"error\":{:?}}}", e));
+        }
+    };
+    let parsed = std::fs::read_to_string(repo.join(rel))
+        .map_err(|e| e.to_string())
+        .and_then(|s| syn::parse_file(&s).map_err(|e| e.to_string()));
+    let mut ok_all = true;
+    for (name, wrapped) in [("find_impl", false), ("find", true), ("merge", true), ("same_set", true)] {
+        let r = parsed.clone().and_then(|f| uf_function(&f, name, wrapped)).map(|(params, need, code)| {
+            let mut t = format!("(* {rel}: fn {name} *)\nDefinition uf_{name}_fn : afn := {{|\n  a_name := \"{name}\";\n  a_params := [{}];\n  a_need := {};\n  a_code := [\n",
+                params.iter().map(|p| format!("\"{p}\"")).collect::<Vec<_>>().join("; "),
+                match &need { Some(e) => format!("Some ({})", e.coq()), None => "None".to_string() });
+            for (k, i) in code.iter().enumerate() {
+                t.push_str(&format!("    (* {k:2} *) {}{}\n", coq_instr(i), if k + 1 < code.len() { ";" } else { "" }));
+            }
+            t.push_str("  ]\n|}.\n");
+            t
+        });
+        if r.is_err() {
+            ok_all = false;
+        }
+        push(&format!("uf_{name}_fn"), rel, r, out);
+    }
+    if ok_all {
+        out.push_str("Definition uf_prog : list afn := [uf_find_impl_fn; uf_find_fn; uf_merge_fn; uf_same_set_fn].\n\n");
+    }
+    push("uf_orderings", "union-find/src/concurrent/atomic_int.rs", orderings(repo), out);
+}
+
+// ------------------------------------------------------------------------------------------------
+// C06 section: see `par_section`
+// ------------------------------------------------------------------------------------------------
+
+#[allow(dead_code)]
+struct Dummy;
+impl<'ast> Visit<'ast> for Dummy {}
+
+pub fn generate(repo: &Path) -> (String, Vec<String>) {
+    let mut out = String::from(
+        "(* GENERATED by /verif/translator (x_ufconc.rs) on every run; do not edit *)\nFrom Coq Require Import List String.\nImport ListNotations.\nRequire Import Verif.UF.AtomProg.\nOpen Scope string_scope.\n\n(* ---- section 1: atomic programs of the concurrent union-find ---- *)\n\n",
+    );
+    let mut rep = vec![];
+    uf_section(repo, &mut out, &mut rep);
+    (out, rep)
 }
